@@ -1,5 +1,7 @@
 import Hertz.Proofs.Resp
 import Hertz.Model.Fs
+import Hertz.Model.Http1.RespMsg
+import Hertz.Proofs.Fs
 /-!
 Lemmas for the end-to-end statement of C04: the whole response (header block of the C05 model with
 the framing fields `ResponseHeader.SetContentLength` puts in, followed by the body bytes of
@@ -66,9 +68,6 @@ theorem sChunked_eq : sChunked = [99, 104, 117, 110, 107, 101, 100] := by
   decide
 
 /-! ### decimal numbers: `bytesconv.AppendUint` against the reader's `parseDec` -/
-
-/-- the digits `bytesconv.AppendUint(nil, n)` writes (`FS.decDigits` with the 20-byte scratch buffer) -/
-def decimal (n : Nat) : Bytes := (FS.decDigits 20 n).getD []
 
 def isDig (c : UInt8) : Bool := 48 ≤ c && c ≤ 57
 def decStep (n : Nat) (c : UInt8) : Nat := n * 10 + (c - 48).toNat
@@ -151,12 +150,6 @@ theorem newlineToSpace_decimal (n : Nat) (h : n < 10 ^ 20) : newlineToSpace (dec
 /-! ### the status line -/
 
 def NoCRLF (b : Bytes) : Prop := ∀ x ∈ b, x ≠ 13 ∧ x ≠ 10
-
-/-- `HTTP/1.1 ` -/
-def strHTTP11Sp : Bytes := [72, 84, 84, 80, 47, 49, 46, 49, 32]
-
-/-- `consts.StatusLine(code)` without the final CRLF: `fmt.Sprintf("HTTP/1.1 %d %s", code, reason)` -/
-def statusLineOf (code : Nat) (reason : Bytes) : Bytes := strHTTP11Sp ++ decimal code ++ 32 :: reason
 
 theorem decimal_three (n : Nat) (h1 : 100 ≤ n) (h2 : n < 1000) : ∃ a b c, decimal n = [a, b, c] := by
   have a1 : ¬ n < 10 := by omega
@@ -324,26 +317,8 @@ theorem bodyOf_chunked (isHead : Bool) (st : Nat) (fs : List (Bytes × Bytes)) (
 
 /-! ### the header state the writer leaves behind -/
 
-/-- `setArgBytes(h, key, value, ArgsHasValue)`: overwrite the first entry with that key, else append -/
-def setArgKV : List (Bytes × Bytes) → Bytes → Bytes → List (Bytes × Bytes)
-  | [], k, v => [(k, v)]
-  | (k', v') :: t, k, v => if k' = k then (k, v) :: t else (k', v') :: setArgKV t k v
-
-/-- `ResponseHeader.SetContentLength` as `resp.Write`, `writeBodyStream` and the hijacked writer call it,
-for the framing `frame` decides: `n ≥ 0` writes the decimal number and deletes `Transfer-Encoding`,
-`-1` clears it and sets `Transfer-Encoding: chunked`; no call (or the no-op for 1xx/204/304) leaves
-the header as it is. -/
-def withFraming (r : RespHdr) : Framing → RespHdr
-  | .none => r
-  | .cl n => { r with contentLength := n, clBytes := decimal n,
-                      h := r.h.filter (fun kv => kv.1 != strTransferEncoding) }
-  | .chunked => { r with contentLength := -1, clBytes := [],
-                         h := setArgKV r.h strTransferEncoding strChunked }
-
-def toSpec : Framing → Spec.Resp.Framing
-  | .none => .none
-  | .cl n => .cl n
-  | .chunked => .chunked
+-- `setArgKV`, `withFraming`, `toSpec` (and `decimal`, `statusLineOf`, `effFraming`, `message`) live in
+-- `Hertz/Model/Http1/RespMsg.lean` so that the driver can evaluate them
 
 /-- the response header before the writer touches it: a status line `HTTP/1.1 NNN reason`, no
 Content-Length yet, and no generic field called Content-Length or Transfer-Encoding (the setters route
@@ -426,10 +401,6 @@ theorem decode_message (r : RespHdr) (st : Nat) (f : Framing) (isHead : Bool) (t
   exact statusOf_statusLineOf st reason h1 h2
 
 /-! ### the whole message -/
-
-/-- everything `resp.Write` (or the hijacked writer) puts on the wire for one response -/
-def message (r : RespHdr) (p : Prog) (isHead : Bool) : Bytes :=
-  (withFraming r (frame p isHead).framing).bytes ++ (frame p isHead).wire
 
 /-- bytes written through the hijacked writer, in order -/
 def writtenBytes (script : List WOp) : Bytes :=
@@ -693,12 +664,6 @@ def HeadInv (r : RespHdr) (status : Nat) (d : Spec.Resp.Framing) : Prop :=
 theorem HeadOK.inv {r : RespHdr} {st : Nat} (h : HeadOK r st) : HeadInv r st .none :=
   ⟨h.1, h.2.1, h.2.2.1, fun kv hkv => (h.2.2.2.2 kv hkv).1, .none h.2.2.2.1 (fun kv hkv => (h.2.2.2.2 kv hkv).2)⟩
 
-/-- the framing the reader sees: the writer's if it set one, else what the header declared -/
-def effFraming (d : Spec.Resp.Framing) : Framing → Spec.Resp.Framing
-  | .none => d
-  | .cl n => .cl n
-  | .chunked => .chunked
-
 theorem effFraming_of_ne_none (d : Spec.Resp.Framing) (f : Framing) (h : f ≠ .none) : effFraming d f = toSpec f := by
   cases f <;> simp_all [effFraming, toSpec]
 
@@ -885,5 +850,64 @@ theorem message_bodiless_leftover (r : RespHdr) (p : Prog) (isHead : Bool) (rest
   unfold message
   rw [List.append_assoc, decode_message r p.status _ isHead _ hr (frame_cl_bound p isHead hs)]
   exact bodyOf_bodiless _ _ _ _ _ hb
+
+/-! ### the repaired `Content-Length` setter (`setSpecialHeader`, /repo db53447) -/
+
+theorem foldl_decStep_eq_decAcc : ∀ (t : Bytes) (acc : Nat), t.all isDig = true →
+    t.foldl decStep acc = FS.Spec.decAcc t acc
+  | [], _, _ => rfl
+  | c :: t, acc, h => by
+    simp only [List.all_cons, Bool.and_eq_true] at h
+    have hv := (FS.digit_val (c := c) h.1).1
+    simp only [List.foldl, FS.Spec.decAcc, decStep, hv]
+    rw [foldl_decStep_eq_decAcc t _ h.2, Nat.mul_comm]
+
+/-- what `protocol.ParseContentLength` accepting a value means for the strict reader -/
+theorem parseUint_digits {v : Bytes} {n : Int} (h : FS.parseUint v = .ok n) :
+    v ≠ [] ∧ v.all isDig = true ∧ ((v.foldl decStep 0 : Nat) : Int) = n ∧ v.foldl decStep 0 < 2 ^ 63 := by
+  obtain ⟨hd, hfit, hn⟩ := FS.parseUint_ok h
+  unfold FS.Spec.isDigits at hd
+  simp only [Bool.and_eq_true, Bool.not_eq_true', List.isEmpty_eq_false_iff] at hd
+  have hall : v.all isDig = true := hd.2
+  have he := foldl_decStep_eq_decAcc v 0 hall
+  refine ⟨hd.1, hall, ?_, ?_⟩
+  · rw [he, hn]; rfl
+  · rw [he]; unfold FS.Spec.decVal at hfit; omega
+
+/-- the accepting branch of `setLengthHeader` -/
+def setLenOk (r : RespHdr) (v : Bytes) (n : Int) : RespHdr :=
+  { r with contentLength := n, clBytes := v, h := r.h.filter (fun kv => kv.1 != strTransferEncoding) }
+
+theorem declares_setLengthHeader (r : RespHdr) (d : Spec.Resp.Framing) (v : Bytes) (n : Int)
+    (hcl : NoName sCL r.h) (hd : Declares r d) (hp : FS.parseUint v = .ok n) :
+    NoName sCL (setLengthHeader r v).h ∧ Declares (setLengthHeader r v) (.cl n.toNat) := by
+  obtain ⟨hne, hall, hval, _⟩ := parseUint_digits hp
+  have hte : NoName sTE (r.h.filter (fun kv => kv.1 != strTransferEncoding)) := by
+    intro kv hkv
+    obtain ⟨hm, hk⟩ := List.mem_filter.mp hkv
+    cases hd with
+    | none _ h1 => exact h1 kv hm
+    | cl _ _ h1 => exact h1 kv hm
+    | chunked a b _ hh ha hb =>
+      rw [hh] at hm
+      simp only [List.mem_append, List.mem_cons] at hm
+      rcases hm with hm | hm | hm
+      · exact ha kv hm
+      · subst hm; simp at hk
+      · exact hb kv hm
+  have e : setLengthHeader r v = setLenOk r v n := by
+    simp only [setLengthHeader, hp, setLenOk]
+  rw [e]
+  refine ⟨fun kv hkv => hcl kv (List.mem_filter.mp hkv).1, ?_⟩
+  have hn : n.toNat = v.foldl decStep 0 := by omega
+  rw [hn]
+  exact Declares.cl (r := setLenOk r v n) hne hall hte
+
+theorem setLengthHeader_statusLine (r : RespHdr) (v : Bytes) : (setLengthHeader r v).statusLine = r.statusLine := by
+  unfold setLengthHeader; split <;> rfl
+
+theorem setLengthHeader_error (r : RespHdr) (v : Bytes) (e : FS.UErr) (h : FS.parseUint v = .error e) :
+    setLengthHeader r v = r := by
+  simp only [setLengthHeader, h]
 
 end Hertz.H1.Resp
